@@ -336,12 +336,22 @@ impl Harness for C07 {
         }
         structured.sort_by_key(|(c, _)| *c);
         jobs.extend(structured.into_iter().map(|(_, j)| j));
+        let jobs = {
+            let mut j: Vec<Job> = jobs;
+            j.insert(0, Job::new("builders", json!({"kind": "builders"})));
+            for i in 0..mc_sc::entry::n_parts("C07") {
+                j.insert(1 + i, Job::new(format!("entry-{}", i), json!({"kind": "entry", "part": i})));
+            }
+            j
+        };
         Plan {
             jobs,
             budget_s: if t { 2700 } else { 40 },
             case_deadline_ms: 20_000,
             // about a quarter of what the quick tier of seed 0 reaches (the thorough tier reaches 50x more)
             floors: vec![
+                ("builder_chains", 5),
+                ("entry_cases", 1000),
                 ("ols_cases", 250_000),
                 ("ols_cases_f32", 120_000),
                 ("ols_square_system_zero_residual", 40_000),
@@ -367,6 +377,8 @@ impl Harness for C07 {
                 ("ways_ols_literal_cases", WAYS_FLOOR_OLS),
             ],
             bounds: json!({
+                "builders": mc_sc::builders::BOUNDS,
+                "entry_paths": mc_sc::entry::BOUNDS,
                 "lattice": if t {
                     "every X over {0,1,-1,2}: p=1 n=2..6, p=2 n=3..4; every X over {0,1,-1}: p=2 n=5, p=3 n=4; every y over {0,-1,2}^n; f64 and f32"
                 } else {
@@ -384,6 +396,12 @@ impl Harness for C07 {
     }
 
     fn run(&self, job: &Job) {
+        if job.kind() == "entry" {
+            return mc_sc::entry::run_part("C07", job.u("part"));
+        }
+        if job.kind() == "builders" {
+            return mc_sc::builders::run("C07");
+        }
         match job.kind() {
             "lat" => lattice_case(job),
             "str" => structured_case(job),
